@@ -78,6 +78,17 @@ theorem elemwise2_cost_bound (d nA nB nOut : Nat) :
   unfold Cost.elemwise2 Cost.sort
   simp only [Nat.add_mul, Nat.mul_add, Nat.one_mul]; omega
 
+/-- **elemwise_mixed_cost_bound.** K = 3: a mixed sparse–dense element-wise operation writes at most three times (stored cells in + stored
+cells out + the number of elements of the dense operands' own broadcast shape `D`).  The bound is in `D`, NOT in the broadcast shape of
+the result: a `(10^6)^3` array times a vector of length `10^6` costs a few million cells, not `10^18`. -/
+theorem elemwise_mixed_cost_bound (d n m D : Nat) :
+    Cost.elemwiseMixed d n m D ≤ 3 * ((d + 1) * n + (d + 1) * m + D) := by
+  unfold Cost.elemwiseMixed
+  simp only [Nat.add_mul, Nat.mul_add, Nat.one_mul]; omega
+
+/-- 300 stored elements of a `(10^6)^3` array scaled along the last axis by a dense vector of length `10^6`: 2 002 100 cells -/
+example : Cost.elemwiseMixed 3 300 300 1000000 = 2002100 := by decide
+
 /-- **reduce_cost_bound.** K = 20, for `kept ++ axes` a split of the axes (`kept.length ≤ ndim`), `g ≤ nnz` groups,
 `m ≤ g` of which survive pruning. -/
 theorem reduce_cost_bound (x : COO Int) (kept axes : List Nat) (g m : Nat) (hk : kept.length ≤ x.shape.length)
@@ -175,6 +186,7 @@ inductive Op where
   | tocoo (g : GCXS Int)
   | fromCoo1 (x : COO Int) (c : Nat)
   | dotCsrCsr (nRow nCol nnzOut work : Nat)
+  | elemwiseMixed (d n m D : Nat)
 
 namespace Op
 /-- cells written -/
@@ -196,7 +208,9 @@ def cost : Op → Nat
   | tocoo g => Cost.tocoo g
   | fromCoo1 x c => Cost.fromCoo x [c]
   | dotCsrCsr r c n w => Cost.dotCsrCsr r c n w
-/-- stored cells in and out + Σ shape + ndim (products: stored elements out + products + rows + columns) -/
+  | elemwiseMixed d n m D => Cost.elemwiseMixed d n m D
+/-- stored cells in and out + Σ shape + ndim (products: stored elements out + products + rows + columns;
+mixed sparse–dense operations: stored cells in and out + the size of the dense operands, not of the broadcast shape) -/
 def size : Op → Nat
   | transpose x a => x.cells + (x.transposeCore a).cells + x.frame
   | reshape x s => x.cells + (x.reshapeCore s).cells + x.frame
@@ -215,11 +229,12 @@ def size : Op → Nat
   | tocoo g => (g.shape.length + 1) * g.data.length
   | fromCoo1 x _ => x.cells + x.frame
   | dotCsrCsr r c n w => n + w + r + c + 2
+  | elemwiseMixed d n m D => (d + 1) * n + (d + 1) * m + D
 /-- the explicit constant of each operation -/
 def K : Op → Nat
   | transpose .. => 4 | reshape .. => 1 | flip .. => 10 | roll .. => 6 | squeeze .. => 1 | expandDims .. => 1
   | getitem .. => 5 | elemwise1 .. => 2 | elemwise2 .. => 7 | reduce .. => 20 | concat .. => 6 | stack .. => 8
-  | tri .. => 1 | diagonal .. => 12 | tocoo .. => 21 | fromCoo1 .. => 7 | dotCsrCsr .. => 5
+  | tri .. => 1 | diagonal .. => 12 | tocoo .. => 21 | fromCoo1 .. => 7 | dotCsrCsr .. => 5 | elemwiseMixed .. => 3
 /-- what argument validation and the model guarantee about the sizes -/
 def Admissible : Op → Prop
   | flip x a => a.length ≤ x.shape.length
@@ -253,6 +268,7 @@ theorem opCost_sparse_bound (o : Op) (h : o.Admissible) : o.cost ≤ o.K * o.siz
   | tocoo g => exact tocoo_cost_bound g
   | fromCoo1 x c => exact from_coo_cost_bound x c h
   | dotCsrCsr r c n w => exact dot_csr_csr_cost_bound r c n w
+  | elemwiseMixed d n m D => exact elemwise_mixed_cost_bound d n m D
 
 /-! ## where the bound is false of the code -/
 
